@@ -212,7 +212,7 @@ def rust_of(ty, k):
     return ty.at(k) if isinstance(ty, NestedTy) else ty.rust
 
 
-def evolve(rec, rng, ctx, allow_removal=True, allow_container=False):
+def evolve(rec, rng, ctx, allow_removal=True, allow_container=False, allow_empty=False):
     """apply one random legal step to rec; returns a description or None"""
     kinds = ["add", "add", "opt", "remove", "transient"]
     if allow_container:
@@ -249,7 +249,7 @@ def evolve(rec, rng, ctx, allow_removal=True, allow_container=False):
             if not allow_removal:
                 continue
             cands = rec.last_in_chunk()
-            if not cands or len([f for f in rec.fields if f.transient is None]) <= 1:
+            if not cands or (len([f for f in rec.fields if f.transient is None]) <= 1 and not allow_empty):
                 continue
             f = rng.choice(cands)
             rec.has_removal = True
@@ -445,6 +445,70 @@ def gen_struct_wide(name, rng, ctx):
         if k > 0:
             fam.log.append(f"release {k}: {step(kind)}")
         fam.versions.append(rec.clone())
+    return fam
+
+
+def gen_enum_units(name, rng, ctx):
+    """an enum of unit constructors only that later gains constructors with fields (the encoding of
+    the old constructors must not depend on the shape of the whole enum)"""
+    fam = Family(name, "enum")
+    fam.tags.update(["enum", "units"])
+    fam.sorted = rng.random() < 0.5
+    pool = sorted(CTOR_NAMES) if fam.sorted else list(CTOR_NAMES)
+    if not fam.sorted:
+        rng.shuffle(pool)
+    plain = dict(nestable=[], nested_used=ctx["nested_used"], next_elem=ctx["next_elem"])
+    ctors = [dict(name=pool.pop(0), shape="unit", transient=False, rec=Record()) for _ in range(rng.randint(1, 3))]
+    for k in range(RELEASES):
+        if k in (2, 4):
+            shape = "tuple" if k == 2 else "struct"
+            rec = initial_record(rng, plain, positional=(shape == "tuple"), nfields=rng.randint(1, 2))
+            c = dict(name=pool.pop(0), shape=shape, transient=False, rec=rec)
+            ctors.append(c) if not fam.sorted else ctors.insert(rng.randint(0, len(ctors)), c)
+            fam.log.append(f"release {k}: constructor {c['name']} ({shape}) added")
+        elif k in (1, 3):
+            c = dict(name=pool.pop(0), shape="unit", transient=False, rec=Record())
+            ctors.append(c) if not fam.sorted else ctors.insert(rng.randint(0, len(ctors)), c)
+            fam.log.append(f"release {k}: unit constructor {c['name']} added")
+        fam.versions.append([dict(name=c["name"], shape=c["shape"], transient=False, rec=c["rec"].clone()) for c in ctors])
+    return fam
+
+
+def gen_enum_vanish(name, rng, ctx):
+    """enum whose constructors lose their fields one by one until they are unit constructors that
+    still carry a history (a unit variant with #[evolution(..)])"""
+    fam = Family(name, "enum")
+    fam.tags.update(["enum", "vanish"])
+    pool = list(CTOR_NAMES)
+    rng.shuffle(pool)
+    plain = dict(nestable=[], nested_used=ctx["nested_used"], next_elem=ctx["next_elem"])
+
+    def kind_step(rec, kind):
+        for _ in range(200):
+            trial = rec.clone()
+            d = evolve(trial, rng, plain, allow_removal=True, allow_empty=True)
+            if d and d.startswith(kind):
+                return trial, d
+        return rec, None
+
+    ctors = [dict(name=pool.pop(0), shape="tuple", transient=False, rec=initial_record(rng, plain, positional=True, nfields=1))]
+    for shape in ("struct", "tuple", "struct"):
+        rec = initial_record(rng, plain, positional=(shape == "tuple"), nfields=1)
+        for f in rec.fields:
+            f.transient = None
+        rec, d = kind_step(rec, "add")
+        fam.log.append(f"pre: {d}")
+        ctors.append(dict(name=pool.pop(0), shape=shape, transient=False, rec=rec))
+    for f in ctors[0]["rec"].fields:
+        f.transient = None
+    for k in range(RELEASES):
+        if k > 0:
+            c = ctors[1 + (k - 1) % 3]
+            c["rec"], d = kind_step(c["rec"], "remove")
+            if not c["rec"].fields:
+                c["shape"] = "unit"
+            fam.log.append(f"release {k}: {c['name']}: {d}{' (now a unit constructor)' if c['shape'] == 'unit' else ''}")
+        fam.versions.append([dict(name=c["name"], shape=c["shape"], transient=False, rec=c["rec"].clone()) for c in ctors])
     return fam
 
 
@@ -734,7 +798,7 @@ def main():
     fams = []
     ctx = dict(nestable=[], nested_used=set(), next_elem=[0])
     plan = (["general"] * 10 + ["enum"] * 5 + ["nested"] * 8 + ["containers"] * 8 + ["enum"] * 5 + ["nested"] * 4
-            + ["toplevel"] * 4 + ["shared"] * 3 + ["zipped"] * 2 + ["long"] + ["wide"])
+            + ["toplevel"] * 4 + ["shared"] * 3 + ["zipped"] * 2 + ["long"] + ["wide"] + ["vanish"] * 2 + ["units"] * 2)
     exclude = set()
     for a in sys.argv[3:]:
         if a.startswith("--exclude="):
@@ -742,13 +806,17 @@ def main():
     counters = {}
     for flavour in plan:
         counters[flavour] = counters.get(flavour, 0) + 1
-        prefix = {"general": "Gs", "enum": "En", "nested": "Ns", "containers": "Cs", "toplevel": "Ts", "shared": "Sh", "zipped": "Zp", "long": "Lg", "wide": "Wd"}[flavour]
+        prefix = {"general": "Gs", "enum": "En", "nested": "Ns", "containers": "Cs", "toplevel": "Ts", "shared": "Sh", "zipped": "Zp", "long": "Lg", "wide": "Wd", "vanish": "Vn", "units": "Un"}[flavour]
         name = f"{prefix}{counters[flavour]}"
         sub = random.Random(rng.getrandbits(64))
         c = dict(ctx)
         if flavour in ("general", "containers", "toplevel", "zipped"):
             c = dict(nestable=[], nested_used=ctx["nested_used"], next_elem=ctx["next_elem"])
-        if flavour == "wide":
+        if flavour == "units":
+            fam = gen_enum_units(name, sub, c)
+        elif flavour == "vanish":
+            fam = gen_enum_vanish(name, sub, c)
+        elif flavour == "wide":
             fam = gen_struct_wide(name, sub, dict(nestable=[], nested_used=ctx["nested_used"], next_elem=ctx["next_elem"]))
         elif flavour == "long":
             fam = gen_struct_long(name, sub, c)
